@@ -53,6 +53,7 @@ class Structure:
     rebind: Optional[ast.AST] = None
     final_return: Optional[ast.Return] = None
     pre_mutations: List[ast.AST] = field(default_factory=list)
+    param_rebound: Any = None
     inits: List[Tuple[ast.Assign, List[str], Optional[str], bool, Optional[str]]] = field(default_factory=list)
     # (assignment, chain, key function, reverse, guard description) for every initialisation path of the working list
 
@@ -149,9 +150,29 @@ def extract_structure(sources: core.Sources) -> Structure:
             else:
                 flat.append((x, guard))
     flatten(pre, None)
+    # the parameter itself may be re-bound before the working list is built:  cells = list(cells)  /  cells = helper(cells)
+    extra_ops: List[str] = []
+    tainted = False
+    for n_ in [n_ for x in pre for n_ in ast.walk(x)]:
+        if isinstance(n_, ast.Assign) and any(isinstance(t, ast.Name) and t.id == st.param for t in n_.targets) and st.param != st.W:
+            chp = collection_chain(n_.value, st.param)
+            if chp is None or chp[1] is not None:
+                tainted = True
+            else:
+                extra_ops.extend(chp[0])
+        elif isinstance(n_, (ast.AugAssign, ast.For, ast.With)) and any(isinstance(t, ast.Name) and t.id == st.param and isinstance(t.ctx, ast.Store) for t in ast.walk(n_)):
+            tainted = True
+    st.param_rebound = "?" if tainted else extra_ops
+
+    def with_rebinding(ch):
+        if ch is None:
+            return None
+        if tainted:
+            return (["?"], ch[1])
+        return (list(ch[0]) + extra_ops, ch[1])
     for s, guard in flat:
         if isinstance(s, ast.Assign) and len(s.targets) == 1 and isinstance(s.targets[0], ast.Name) and s.targets[0].id == st.W:
-            ch0 = collection_chain(s.value, st.param)
+            ch0 = with_rebinding(collection_chain(s.value, st.param))
             if ch0 is not None:
                 kf, rev = None, False
                 if ch0[1] is not None:
@@ -167,7 +188,7 @@ def extract_structure(sources: core.Sources) -> Structure:
         if guard is not None:
             continue
         if isinstance(s, ast.Assign) and len(s.targets) == 1 and isinstance(s.targets[0], ast.Name) and s.targets[0].id == st.W:
-            ch = collection_chain(s.value, st.param)
+            ch = with_rebinding(collection_chain(s.value, st.param))
             if ch is not None:
                 st.init = s
                 st.chain, sc = ch
